@@ -24,6 +24,7 @@ import DuckModel.Props.C13
 import DuckModel.Props.C16
 import DuckModel.Props.C17
 import DuckModel.Lemmas.NoPanicLemmas
+import DuckModel.Props.C07Scripts
 
 namespace Duck
 open Duck.Generated
